@@ -3,7 +3,7 @@ from .common import *
 from refinterp import *
 FIELDS = ('out', 'vars', 'cls')
 RULE = 'functions of arity 0-8 called with expression arguments (strings containing commas/parentheses, falsy values), RETURN at any depth of loops/IFs, arity/undefined/escape errors; distinct texts containing FUNC and RUN'
-W = dict(emit=4, assign=2, ifchain=2, repeat=2, whil=1.5, brk=0.8, func=3, call=5, ret=1.5, prnt=0.1, exist=0.2)
+W = dict(emit=4, assign=2, ifchain=2, repeat=2, whil=1.5, brk=0.8, func=3, call=5, ret=1.5, prnt=0.1, exist=0.2, dead_call_p=0.15)
 STRS = ['a', 'b,c', '(x)', 'p,(q', '', 'r)', '0', ', ']
 FALSY = [Lit(0), Lit(''), Lit(False), Bin('-', Lit(5), Lit(5))]
 
